@@ -444,11 +444,11 @@ def nbr_filter(points, nbr:int, radius:float, pdim:int=None, ord:int=2, return_m
             ``pdim`` values. Subsequent values may contain additional information like
             intensity, RGB channels, etc. The shape has to be (N, D).
         nbr (``int``): the minimum number of neighbors (nbr) within a certain radius.
-        ord (``int``, optional): the order of norm to use for distance calculation.
-            Default: ``2`` (Euclidean distance).
         radius (``float``): the radius of the sphere for counting the neighbors.
         pdim (``int``, optional): the dimsion of points, where :math:`\text{pdim} \le D`.
             Default to the last dimension of points, if ``None``.
+        ord (``int``, optional): the order of norm to use for distance calculation.
+            Default: ``2`` (Euclidean distance).
         return_mask (``bool``, optional): return the mask of inliers of not.
 
     Returns:
